@@ -41,6 +41,10 @@ def gen(rng, i, tier):
         x = grid.copy()
         x[1:-1] = x[1:-1] + rng.uniform(-0.45, 0.45, len(x) - 2) * xdiv
         xmax = float(grid[-1])
+    if not onnodes and rng.random() < 0.1:
+        # a node whose only contributor is almost one bin width away (weight ~1e-9): still "receives data", and its value is that point's y
+        k0 = int(rng.integers(1, nb))
+        x = np.concatenate([x[(x < grid[k0] - xdiv) | (x > grid[k0] + xdiv)], [grid[k0 - 1], grid[k0] + xdiv * (1 - 1e-9), grid[k0 + 1] if k0 + 1 <= nb else grid[k0]]])
     dups = False
     if rng.random() < 0.25 and len(x) > 3:
         # bit-identical repeated abscissae (two runs on the same grid concatenated): every point counts
@@ -64,7 +68,7 @@ def gen(rng, i, tier):
 def hat_reference(x, y, xmin, xdiv, xmax):
     n = int((xmax - xmin) / xdiv) + 1
     g = [xmin + k * xdiv for k in range(n)]
-    out = []
+    out, wts = [], []
     for gk in g:
         num, den = [], []
         for xi, yi in zip(x, y):
@@ -74,6 +78,8 @@ def hat_reference(x, y, xmin, xdiv, xmax):
                     num.append(yi * h)
                     den.append(h)
         out.append(math.fsum(num) / math.fsum(den) if den else float("nan"))
+        wts.append(math.fsum(den) if den else 0.0)
+    hat_reference.weights = np.array(wts)       # total hat weight per node (conditioning of the average)
     return np.array(g), np.array(out)
 
 
@@ -107,8 +113,11 @@ def evaluate(case):
     ok = np.isfinite(rv)
     # points that sit within 1e-9 of a node may change bins through rounding of (x-xmin)/xdiv: compare with a tolerance
     # scaled by the data spread (a hat weight changes continuously there)
-    if exceeds(np.abs(v - rv)[ok].max(initial=0.0), 1e-6 * max(1.0, float(np.abs(y).max()))):
-        k = int(np.argmax(np.abs(v - rv) * ok))
+    # a node whose total weight W is tiny is an ill-conditioned average (weights carry ~1e-16 of absolute rounding): allow 1e-13/W on top
+    wk = np.maximum(hat_reference.weights, 1e-300)
+    tolk = (1e-6 + 1e-13 / wk) * max(1.0, float(np.abs(y).max()))
+    if (np.abs(v - rv) > tolk)[ok].any():
+        k = int(np.argmax((np.abs(v - rv) / tolk) * ok))
         fails.append(f"output at grid point {g[k]!r} is {v[k]!r}; hat-weighted average of the points within one bin width is {rv[k]!r}")
     _, vc = Pre_Proc.rebin(x, np.full_like(y, case["c"]), xmin, xdiv, xmax)
     if exceeds(np.abs(np.asarray(vc) - case["c"]).max(), 1e-12 * max(1.0, abs(case["c"]))):
